@@ -4,7 +4,7 @@ from .. import gen
 from ..gen import Opt, schema_lines, LIST, MULTI, TITLE, NO_TITLE_DUPES, COMMENTS, KEYSTRVAL, dbits
 from .C17 import pw_lines
 
-THEOREMS = ["C18_addval", "C18_setnNum_nofault", "C18_setnNum", "C18_setcomment", "C18_setnStr_wellformed", "cellsOk_append"]
+THEOREMS = ["C18_addval", "C18_setnNum_nofault", "C18_setnNum", "C18_setcomment", "C18_setnStr_wellformed", "cellsOk_append", "C18_setopt_plain"]
 PARTIAL = ("Modelled at allocation-sequence fidelity (Confuse.Model.Fault) and proved for EVERY position k of the failing request: cfg_addval, "
            "the numeric / boolean / string indexed setters, cfg_opt_setcomment and cfg_setopt on plain options either complete - then they equal the "
            "fault-free operation - or report failure, leaving every cell of the option with the option's type (a new string cell exists only as NULL). "
